@@ -93,6 +93,9 @@ def gen_text(rng, cs, maxlen=6):
         # texts whose encoded form begins or ends with bytes that look like something else: a byte order mark,
         # NUL, a MIDI status byte
         t = pick(rng, ('\ufeff', 'ï»¿', 'ÿþ', 'þÿ', '\x00', 'ÿ/\x00')) + t
+    elif r < 0.15 and rng.random() < 0.5:
+        # texts that other tools read as directives (RP-026 code set tags, karaoke control words)
+        t = pick(rng, ('{@JP}', '{@LATIN}', '{@JP}', '@KMIDI KARAOKE FILE', '\\', '/'))
     elif r < 0.2:
         t = t + pick(rng, ('\x00', '\ufeff', 'ÿ', '÷'))
     try:
@@ -450,6 +453,16 @@ class Charset(BaseEngine):
                                               f'{texts_of(back2) if tag == "ok" else back2!r}')
         if cs in ('utf-16', 'utf-32') and any(s for _, s in want):
             stats['probe:utf16_bom_roundtrip'] += 1
+        # the file object used as a context manager: inside the block the load has returned, the default is in force
+        try:
+            with back as inside:
+                self.probe(f'load[{cs}] then-inside-with-block', stats, own)
+                tag2, img2 = self.do_save(inside, disk, via)
+                self.probe(f'save[{cs}] then-inside-with-block', stats, own)
+        except Violation:
+            raise
+        except Exception as e:
+            raise Violation('with-block-raised', f'using the loaded MidiFile as a context manager raised {e!r}')
         if plan.get('big'):
             stats['fault:text_of_16k_encoded_bytes'] += 1
             stats['_nontrivial'] += 1
@@ -537,7 +550,11 @@ class Charset(BaseEngine):
                     stats['probe:failed_load_then_probe'] += 1
         else:
             h = disk.handle('out.mid', 'wb')
-            build_file(plan['content'], cs).save(file=h)
+            try:
+                build_file(plan['content'], cs).save(file=h)
+            except Exception as e:
+                raise Violation('save-raised', f'saving the same storable content with charset {cs} a second time raised '
+                                               f'{e!r}')
             nwrites = h.writes
             for i in range(nwrites):
                 for keep in (0, 1):
